@@ -195,6 +195,7 @@ fn strat_frag(t: Tier) -> proptest::strategy::BoxedStrategy<FragCase> {
 
 pub fn def() -> PropertyDef {
     PropertyDef {
+        fuzz_targets: &["c04_history"],
         id: "C05",
         level: "exploration",
         rule: "C04-style histories (every rejection reason at every position, all codecs, convenience forms) are executed twice: as generated, and with \
